@@ -10,3 +10,5 @@ import MenelausVerif.Props.C01Models
 import MenelausVerif.Props.C02
 import MenelausVerif.Props.C17
 import MenelausVerif.Props.C17PH
+import MenelausVerif.Model.Cusum
+import MenelausVerif.Props.C04
